@@ -667,6 +667,22 @@ def handleQ (payload : String) : String :=
     s!"score={score} max={m} sq={sn}/{sd} mq={mn}/{md}"
   | _ => "bad"
 
+/-- `AQ`: `AssignmentQualityInfo::from_caobab_assignment` + `get_quality` -/
+def handleAQ (payload : String) : String :=
+  match payload.splitOn "#" with
+  | [cs, ps, rooms, asg, u, f] =>
+    let (I, _) := parseInst cs ps rooms
+    let av := parseAssign asg
+    let a : Nat → Option Nat := fun p => (av.getD p none)
+    match u.trimAscii.toString.toNat?, f.trimAscii.toString.toNat? with
+    | some u, some f =>
+      let q := QM.fromAssignment I a u f
+      let (n, d) := QM.getQuality q
+      let pens := ",".intercalate (q.2.map toString)
+      s!"ni={q.1} pens={pens} q={n}/{d}"
+    | _, _ => "bad"
+  | _ => "bad"
+
 def handleL (payload : String) : String :=
   match Json.parse payload with
   | .error e => s!"bad json {e}"
@@ -871,6 +887,7 @@ def dispatch (line : String) : String :=
     | "CQ" => CDD.handleCQ payload
     | "CP" => CDD.handleCP payload
     | "Q" => handleQ payload
+    | "AQ" => handleAQ payload
     | "L" => handleL payload
     | "RL" => handleRL payload
     | "RP" => handleRP payload
